@@ -5,7 +5,11 @@ from vlib import gocheck
 def main():
     groups = [dict(pkg='compiler/internal/source', rel='internal/source', harnesses=['HarnessC19Advance', 'HarnessC19AdvanceUnicode']),
               dict(pkg='compiler/internal/frontend/lexer', rel='internal/frontend/lexer', harnesses=['HarnessC19Trivia'], max_paths=100000)]
-    groups += [dict(pkg='compiler/internal/verifrt/fe', rel='internal/verifrt/fe', harnesses=['HarnessC19Gaps%d' % k], max_paths=100000, wall_timeout=3000) for k in range(8)]
+    from vlib import runner as _runner
+    if _runner.tier() == 'quick':
+        groups += [dict(pkg='compiler/internal/verifrt/fe', rel='internal/verifrt/fe', harnesses=['HarnessC19Gaps%d' % k], max_paths=100000, wall_timeout=3000) for k in range(8)]
+    else:
+        groups += [dict(pkg='compiler/internal/verifrt/fe', rel='internal/verifrt/fe', harnesses=['HarnessC19GapsT%d' % k], max_paths=100000, wall_timeout=5000) for k in range(16)]
     rc = gocheck.run('C19', 'other', groups, gocheck.GOSYM_ASSUME + [
         'ASCII text, plus comment text containing one 2-byte and / or one 3-byte UTF-8 character at fixed places (concrete bytes; symbolic bytes are ASCII); regular expressions of the lexer are matched by a backtracking matcher over regexp/syntax with Go leftmost-first semantics (gosym/interp/regex.go)',
  'front-end harness (HarnessC19Gaps*): the program set is fixed (two small programs quick, plus a broad-syntax one thorough); the inserted trivia is one of: blank, newline, blank-newline-blanks, block comment, line comment, block comments with a 2-byte / two 3-byte characters (columns count characters, indices bytes), the symbolic comment text being ONE symbolic character (6 interesting characters quick, all printable ASCII thorough); tabs are left out of the position obligation (known finding D10)',
